@@ -1016,6 +1016,18 @@ func (c *SpecCtx) call(n *ECall) TV {
 			return TV{Sc{c.e.freshConst("calleecalls", SInt)}, mathInt}
 		}
 		return TV{Sc{c.e.callCount(c.heap, st.V)}, mathInt}
+	case "nocalls": // nocalls("callee"): this function has made no call to a callee whose name ends so
+		st, ok := n.Args[0].(*EStr)
+		if !ok {
+			c.fail("nocalls() needs a string literal")
+		}
+		if c.callee {
+			return TV{Sc{c.e.freshConst("calleenocalls", SBool)}, mathBool}
+		}
+		c.e.noCallsQuery = true
+		t := c.e.callCount(c.heap, st.V)
+		c.e.noCallsQuery = false
+		return TV{Sc{eq(t, intLit(0))}, mathBool}
 	case "nth": // nth(tuple, i): component of a multi-valued pure call
 		a := c.eval(n.Args[0])
 		tv, ok := a.V.(TupleV)
